@@ -475,6 +475,13 @@ func drawC18(rt *rapid.T) (c18Case, []string) {
 		to := gen.DefaultTreeOpts()
 		to.MaxDepth, to.Alphabet, to.TextSafe = 4, alphabet, o.TextSafe
 		tree = gen.Tree(rt, to)
+		if rapid.IntRange(0, 7).Draw(rt, "large") == 0 {
+			// one generic input in eight is large (1 KiB .. 250 KiB binary): re-encodings cross the writers' buffer growth steps
+			if tree.Type != ttlvref.Structure {
+				tree = &ttlvref.Node{Tag: 0x420078, Type: ttlvref.Structure, Kids: []*ttlvref.Node{tree}}
+			}
+			notes = append(notes, inflate(rt, tree)...)
+		}
 		if enc != "binary" && rapid.Bool().Draw(rt, "registered") {
 			// registered enumeration / mask tags so that names can be used
 			tree.Walk(func(n *ttlvref.Node, _ int) {
